@@ -24,6 +24,10 @@ var errEvalC20 = errors.New("scripted evaluator error")
 type c20Input struct {
 	Obs    bool    `json:"observer"`
 	Script [][]int `json:"script"` // [trial][generation]
+	// Prealloc > 0: Experiment.Trials is pre-allocated with len(Script)+Prealloc entries by the caller;
+	// Reuse: the same Experiment value first executed a longer run (two more trials, all unsolved)
+	Prealloc int  `json:"prealloc,omitempty"`
+	Reuse    bool `json:"reuse,omitempty"`
 }
 
 type c20Pop struct {
@@ -121,6 +125,30 @@ func c20Exec(in c20Input) (trace [][]int64, status int, execErr error) {
 	defer cancel()
 	env := &c20Env{script: in.Script, cancel: cancel, byT: map[int]*c20Pop{}}
 	exp := experiment.Experiment{}
+	if in.Prealloc > 0 {
+		exp.Trials = make(experiment.Trials, len(in.Script)+in.Prealloc)
+		for i := range exp.Trials {
+			exp.Trials[i].Id = -1
+		}
+	}
+	if in.Reuse && len(in.Script) > 0 {
+		// an earlier, longer run of the same Experiment value
+		prev := make([][]int, len(in.Script)+2)
+		for i := range prev {
+			prev[i] = make([]int, len(in.Script[0]))
+		}
+		po := *opts
+		po.NumRuns = len(prev)
+		pctx, pcancel := context.WithCancel(context.Background())
+		penv := &c20Env{script: prev, cancel: pcancel, byT: map[int]*c20Pop{}}
+		_ = exp.Execute(neat.NewContext(pctx, &po), readPlain(tinyGenome, 1), penv, nil)
+		pcancel()
+		for i := range exp.Trials {
+			exp.Trials[i].Id = -1
+			exp.Trials[i].Generations = nil
+			exp.Trials[i].Duration = 0
+		}
+	}
 	var obs experiment.TrialRunObserver
 	if in.Obs {
 		obs = c20Obs{env}
@@ -145,6 +173,9 @@ func c20Exec(in c20Input) (trace [][]int64, status int, execErr error) {
 	recorded := map[int][2]int{}
 	for i, tr := range exp.Trials {
 		written := tr.Id == i && (i > 0 || tr.Duration != 0 || len(tr.Generations) > 0)
+		if in.Prealloc > 0 || in.Reuse {
+			written = tr.Id == i // entries were marked with Id -1 beforehand
+		}
 		if written {
 			turns := 0
 			if q := env.byT[i]; q != nil {
@@ -327,6 +358,27 @@ func runC20(r *Run) error {
 			}
 		}
 		add(c20Input{Obs: r.Rng.Intn(4) != 0, Script: script})
+	}
+	// pre-allocated and reused Experiment values: still exactly the configured number of trials
+	for i := 0; i < r.N(120, 2000); i++ {
+		runs := 1 + r.Rng.Intn(3)
+		gens := 1 + r.Rng.Intn(3)
+		script := make([][]int, runs)
+		for t := range script {
+			script[t] = make([]int, gens)
+			for g := range script[t] {
+				if r.Rng.Float64() < 0.3 {
+					script[t][g] = 1 + r.Rng.Intn(4)
+				}
+			}
+		}
+		in := c20Input{Obs: r.Rng.Intn(2) == 0, Script: script}
+		if i%2 == 0 {
+			in.Prealloc = 1 + r.Rng.Intn(3)
+		} else {
+			in.Reuse = true
+		}
+		add(in)
 	}
 	cf.Close("c20_mismatches")
 	return nil
